@@ -16,6 +16,7 @@ THEOREMS = [
     "C03_ro_eq_c3", "C03_strict_raises_iff", "C03_is_consistent_iff", "C03_ro_valid",
     "C03_legacy_valid", "C03_sro_valid", "C03_sro_eq_c3_rooted", "C03_root_last",
     "C03_single_base_shortcut_sound", "C03_iro_is_filter", "C03_oracle_sound",
+    "C03_strict_sro_raises_iff",
 ]
 RULE = ("ordered inheritance DAGs of real InterfaceClass objects and class specifications "
         "(implementer on real classes); streams: pure interface DAGs, DAGs with Interface as an explicit "
@@ -348,7 +349,7 @@ def extra(run, impl, known):
 
 TECHNIQUE = ("Coq proof over a Gallina transcription of ro.py / _calculate_sro against a textbook-C3 Spec; vm_compute "
              "correspondence with both implementations on generated hierarchies; CPython MRO as Spec oracle")
-LEVEL_TEXT = ("Machine-checked theorems (Properties/C03.v, 17 theorems, closed under the global context) state for ALL "
+LEVEL_TEXT = ("Machine-checked theorems (Properties/C03.v, 18 theorems, closed under the global context) state for ALL "
               "finite acyclic ordered hierarchies that the model's __sro__ is a valid linearization ending with Interface, "
               "equals the textbook C3 order whenever that exists, that strict mode raises / is_consistent is False exactly "
               "when it does not, that the legacy fallback is still a valid linearization, and that the merge terminates. "
